@@ -99,12 +99,25 @@ func packF16(f float32) []byte {
 		f = -671088.64
 	}
 
-	signedMantissa := int(f * 100)
+	// Work in fixed point with 8 fractional bits so that the mantissa can be rounded to
+	// nearest at the exponent finally chosen, instead of being truncated step by step.
+	scaled := int64(float64(f) * 25600)
+	signedMantissa := int((scaled + 128) >> 8)
 	exp := 0
 
 	for signedMantissa > 2047 || signedMantissa < -2048 {
-		signedMantissa /= 2
 		exp++
+		signedMantissa = int((scaled + 128<<uint(exp)) >> uint(8+exp))
+	}
+
+	// 0x7FFF marks invalid data and no datapoint type reaches beyond +-670760: keep the
+	// mantissa at the largest exponent inside +-2046.
+	if exp == 15 {
+		if signedMantissa > 2046 {
+			signedMantissa = 2046
+		} else if signedMantissa < -2046 {
+			signedMantissa = -2046
+		}
 	}
 
 	buffer[1] |= uint8(exp&15) << 3
